@@ -172,10 +172,10 @@ def render(t):
     L.append("  perItem : Bool    -- loops over a list of items")
     L.append("deriving Repr, DecidableEq")
     L.append("")
-    L.append("def arms : List Arm := [")
-    L.append(",\n".join('  { name := "%s", onError := .%s, marks := %s, perItem := %s }' % (n, p, lean_bool(m), lean_bool(i))
+    L.append("def arms : List Arm := [" + ("" if t["arms"] else "]"))
+    if t["arms"]: L.append(",\n".join('  { name := "%s", onError := .%s, marks := %s, perItem := %s }' % (n, p, lean_bool(m), lean_bool(i))
                         for n, p, m, i in t["arms"]))
-    L.append("]")
+    if t["arms"]: L.append("]")
     L.append("")
     L.append("/-- textual order of the steps of process_batch_write -/")
     L.append("def steps : List String := [" + ", ".join('"%s"' % x for x in t["steps"]) + "]")
@@ -206,13 +206,18 @@ def render(t):
 
 
 def main():
+    out = sys.argv[1] if len(sys.argv) > 1 else OUT
     try:
         t = parse(open(SRC).read())
     except (ParseError, ValueError, OSError) as e:
+        # the obligations that depend on the table must not keep checking against a stale table:
+        # write an empty one (every `decide`d table fact of Props/C13.lean then fails) and report
         sys.stderr.write("writer_table.py: cannot read %s: %s\n" % (SRC, e))
+        t = dict(arms=[], steps=["TRANSLATOR FAILED: %s" % str(e).replace('"', "'")], marks_in_txn=False, marks_rb=False,
+                 commit_rb=False, begin_q=False, points=[], ack_hook=False, ok_sends=0, err_sends=0, ok_in_err=1, err_in_ok=1)
+        with open(out, "w") as f: f.write(render(t))
         return 1
     txt = render(t)
-    out = sys.argv[1] if len(sys.argv) > 1 else OUT
     old = open(out).read() if os.path.exists(out) else None
     if old != txt:
         os.makedirs(os.path.dirname(out), exist_ok=True)
